@@ -1,15 +1,15 @@
 #!/bin/bash
-# usage: tools/verify_seed.sh /tmp/seed/wt_C01 <name>
+# usage: tools/verify_seed.sh /tmp/seed/wt_C01 <name> [mutation-subdir, default "mutation"]
 # Confirms in the scratch worktree: patch applies, crate builds, repository suite unchanged (84 pass / 3
 # known failures), demonstration fails with the change and passes without it. Copies the kept files to
 # /verif/seeded/<name>/.
 set -u
-wt=$1; name=$2
+wt=$1; name=$2; sub=${3:-mutation}
 cd "$wt" || exit 2
 export CARGO_TARGET_DIR=$wt/target CARGO_NET_OFFLINE=true
 git checkout -q -- . ; git clean -fdq tests 2>/dev/null
-patch=$wt/mutation/patch.diff
-demo=$(ls $wt/mutation/*.rs | head -1)
+patch=$wt/$sub/patch.diff
+demo=$(ls $wt/$sub/*.rs | head -1)
 [ -f "$patch" ] && [ -f "$demo" ] || { echo "missing patch or demo"; exit 2; }
 mkdir -p tests; cp "$demo" tests/demo_seed.rs
 echo "== demo on unchanged tree"
@@ -24,5 +24,5 @@ echo "== demo with the change"
 timeout 600 cargo test --offline --test demo_seed 2>&1 | grep -E "^test result|error(\[|:)|panicked" | head -4
 git checkout -q -- . ; rm -f tests/demo_seed.rs
 mkdir -p /verif/seeded/$name
-cp "$patch" /verif/seeded/$name/patch.diff; cp "$demo" /verif/seeded/$name/demo.rs; cp $wt/mutation/README.md /verif/seeded/$name/AGENT_README.md 2>/dev/null
+cp "$patch" /verif/seeded/$name/patch.diff; cp "$demo" /verif/seeded/$name/demo.rs; cp $wt/$sub/README.md /verif/seeded/$name/AGENT_README.md 2>/dev/null
 echo "copied to /verif/seeded/$name"
